@@ -15,6 +15,7 @@
   `alt…=` are the answers when the uninitialised `ch` of advance_string_default happens to hold a quote.
 -/
 import SonicSpec.Model.MemScan
+import SonicSpec.Model.MemStr
 namespace SonicSpec.Driver.Mem
 open SonicSpec SonicSpec.Mem
 
@@ -69,9 +70,42 @@ def leadZeroFault (api : String) (m : Mem) (base : Nat) (doc : Bytes) : Option B
       some (vnumberHead (view m base) doc.length p).isNone
     else none
 
+/-- the string routines run with the widths of the same build -/
+def strW (w : Widths) : StrWidths := if w.lspace.isEmpty then StrWidths.sse else StrWidths.avx2
+
+def showBytes : Option Bytes → String
+  | none => "FAULT"
+  | some b => hexArg b
+
+/-- `unquote.String`: `<ParsingError>:<hex of the result>` (types.go:83-86) -/
+def showUnq : Option (Except Str.UErr Bytes) → String
+  | none => "FAULT"
+  | some (.ok b) => "0:" ++ hexArg b
+  | some (.error .eof) => "1:-"
+  | some (.error .inval) => "2:-"
+  | some (.error .escape) => "3:-"
+  | some (.error .unicode) => "4:-"
+
+/-- quote / unquote / html / utf8v / utf8vs / utf8c: the block-wise models of Model/MemStr.lean on the placement -/
+def answerStr (sw : StrWidths) (api : String) (rd : Rd) (doc : Bytes) : Option String :=
+  let n := doc.length
+  if api == "quote" then
+    -- alg.Quote: `""` for the empty string, else one native call per buffer size (first: nb + 1 free bytes)
+    some (if n == 0 then hexArg [34, 34]
+          else showBytes ((quoteGo sw Str.quoteByte rd n [n + 1] 0 []).map fun b => 34 :: (b ++ [34])))
+  else if api == "unquote" then some (showUnq (unquoteNative sw true false rd n))
+  else if api == "html" then some (showBytes (htmlGo sw rd n [n + 64] 0 []))
+  else if api == "utf8v" || api == "utf8vs" then
+    some (match utf8Fast sw rd n with
+      | none => "FAULT"
+      | some b => if b then "1" else "0")
+  else if api == "utf8c" then some (showBytes ((loadW rd n 0).map (Str.correctWith Str.fffd)))
+  else none
+
 def answer (w : Widths) (api : String) (ch0 : UInt8) (m : Mem) (base : Nat) (doc : Bytes) : Option String :=
   let rd := view m base
-  if doc.isEmpty then
+  if let some r := answerStr (strW w) api rd doc then some r
+  else if doc.isEmpty then
     (if api == "valid" then some "0" else none)
   else if api == "skip" then some (showSkip doc.length (skipOneScalarValue ch0 w rd doc.length 0))
   else if api == "valid" then some (showValid doc (skipOneScalarValue ch0 w rd doc.length 0))
@@ -101,7 +135,12 @@ def handle : List String → Option String
         let ah := (answer w api 34 mh (3 * 4096 + 16) doc).getD h
         let ag := (answer w api 34 mg gstart doc).getD g
         let at' := (answer w api 34 mt tstart doc).getD t
-        some s!"model={h}\tguard={g}\ttail={t}\talt={ah}\taltguard={ag}\talttail={at'}{gf}"
+        let vs := if api == "utf8v" || api == "utf8vs" then
+            (match utf8Vec StrWidths.avx2.utf8 (ofList doc) doc.length with
+             | some true => if Str.validate doc then "\tvecsound=1" else "\tvecsound=0"
+             | _ => "\tvecsound=1")
+          else ""
+        some s!"model={h}\tguard={g}\ttail={t}\talt={ah}\taltguard={ag}\talttail={at'}{gf}{vs}"
       | _, _, _ => if gf == "" then none else some s!"model=unsupported{gf}"
     | _, _, _ => none
   | "plain" :: api :: hdoc :: rest =>
@@ -110,7 +149,13 @@ def handle : List String → Option String
       let w := widthsOf (rest.headD "avx2")
       let mh := placed doc.toArray #[] (3 * 4096 + 16) 0 edge
       match answer w api 0 mh (3 * 4096 + 16) doc with
-      | some h => some s!"model={h}\talt={(answer w api 34 mh (3 * 4096 + 16) doc).getD h}"
+      | some h =>
+        let vs := if api == "utf8v" || api == "utf8vs" then
+            (match utf8Vec StrWidths.avx2.utf8 (ofList doc) doc.length with
+             | some true => if Str.validate doc then "\tvecsound=1" else "\tvecsound=0"
+             | _ => "\tvecsound=1")
+          else ""
+        some s!"model={h}\talt={(answer w api 34 mh (3 * 4096 + 16) doc).getD h}{vs}"
       | none => none
     | none => none
   | _ => none
